@@ -100,7 +100,7 @@ func msParamOfTime(t ssa.Value) (string, bool) {
 				if r, isR := in.(*ssa.Return); isR && len(r.Results) == 1 {
 					n++
 					pn, ok2 := msParamOfTime(r.Results[0])
-					if !ok2 || pn != h.Params[0].Name() {
+					if !ok2 || pn != eng.ParamName(h.Params[0]) {
 						okAll = false
 					}
 					inner = pn
@@ -109,7 +109,7 @@ func msParamOfTime(t ssa.Value) (string, bool) {
 		}
 		if okAll && n > 0 && inner != "" {
 			if pr, isP := eng.Unwrap(cl.Common().Args[0]).(*ssa.Parameter); isP {
-				return pr.Name(), true
+				return eng.ParamName(pr), true
 			}
 		}
 		return "", false
@@ -134,12 +134,12 @@ func msParamOfTime(t ssa.Value) (string, bool) {
 			return "", false
 		}
 		if pr, ok := eng.Unwrap(bo.X).(*ssa.Parameter); ok {
-			return pr.Name(), true
+			return eng.ParamName(pr), true
 		}
 	case "UnixMilli":
 		if len(a) == 1 {
 			if pr, ok := eng.Unwrap(a[0]).(*ssa.Parameter); ok {
-				return pr.Name(), true
+				return eng.ParamName(pr), true
 			}
 		}
 	}
@@ -152,7 +152,7 @@ func classifyCal(v ssa.Value) calComp {
 		return calComp{kind: "const", value: k}
 	}
 	if pr, ok := v.(*ssa.Parameter); ok {
-		return calComp{kind: "param", src: pr.Name()}
+		return calComp{kind: "param", src: eng.ParamName(pr)}
 	}
 	if bo, ok := v.(*ssa.BinOp); ok && bo.Op == token.ADD {
 		x, y := bo.X, bo.Y
@@ -414,7 +414,7 @@ func calendarSkeleton(c *eng.Ctx) {
 
 func isParam(v ssa.Value, name string) bool {
 	pr, ok := eng.Unwrap(v).(*ssa.Parameter)
-	return ok && pr.Name() == name
+	return ok && eng.ParamName(pr) == name
 }
 
 // retValues: the first result of every return of fn (phis expanded one level).
